@@ -296,7 +296,19 @@ func RunWorker(c Check, tier string, seed uint64, worker, of int, b Budget) int 
 			sum.SelfTestRuns++
 			// (reports of the race detector are excluded: it can miss a race in one
 			// of two identical executions, see DESIGN 3.4)
-			if res2.Sig != res.Sig || stableClasses(res2.Violations) != stableClasses(res.Violations) || res2.Evaluations != res.Evaluations {
+			if (res2.Sig != res.Sig || stableClasses(res2.Violations) != stableClasses(res.Violations) || res2.Evaluations != res.Evaluations) &&
+				(len(res.Violations) > 0 || len(res2.Violations) > 0) {
+				// The two executions of one tape differ AND at least one of them
+				// violates the property: the code under test itself behaves
+				// differently from execution to execution (Go map iteration order
+				// inside the library decides which damage shows first). What was
+				// observed is a violation all the same; it is reported, not turned
+				// into harness trouble.
+				sum.Counters["selftest_mismatch_with_violation"]++
+				if len(res.Violations) == 0 {
+					res = res2
+				}
+			} else if res2.Sig != res.Sig || stableClasses(res2.Violations) != stableClasses(res.Violations) || res2.Evaluations != res.Evaluations {
 				sum.Fatal = fmt.Sprintf("determinism self-test failed on run %d (seed %d): sig %x vs %x, violations %q vs %q, evals %d vs %d",
 					idx, rs, res.Sig, res2.Sig, stableClasses(res.Violations), stableClasses(res2.Violations), res.Evaluations, res2.Evaluations)
 				break
